@@ -38,6 +38,8 @@ func (s *Schema) RemoveType(typ string) {
 	for i := range s.Types {
 		if s.Types[i].Name == typ {
 			s.Types = append(s.Types[0:i], s.Types[i+1:]...)
+
+			return
 		}
 	}
 }
